@@ -5,8 +5,8 @@ CONSTANTS
   DynLo = 5
   WksAddr = 2
   Names = {"wk", "n1"}
-  MaxSock <- Max43L
-  KindSeq <- SeqLifeT
+  MaxSock <- Max32
+  KindSeq <- SeqLife
   Roles <- LifeOps
   Msgs = {1}
   BindAddrs <- BAL
